@@ -2,10 +2,10 @@ import PsycheModel.Tree
 /-!
 # C14 — Node extents nest and traversal reaches every node exactly once
 
-For every tree (any shape, any depth, null children, missing tokens, empty lists) that satisfies the two
-decidable hypotheses monitored on real trees: `listsOK` (a node list that owns tokens owns some in its first and
-in its last element — the only ones `firstToken`/`lastToken` of a list look at) and, for the enclosure
-statements, `Ordered` (the property's own sibling clause).
+For every tree (any shape, any depth, null children, missing tokens, empty or hollow lists).  `firstToken` /
+`lastToken` are the first / last token of the subtree unconditionally; the enclosure statements additionally use
+`Ordered` — the property's own sibling clause, which is the parser's obligation and is evaluated on every real tree
+by the correspondence run.
 -/
 namespace PsycheModel.Tree
 
@@ -19,82 +19,48 @@ theorem getLast?_append_of (l r : List Nat) : (l ++ r).getLast? = orElse r.getLa
   cases r.getLast? <;> simp [orElse]
 
 mutual
-theorem first_eq_head : ∀ (t : Tree), listsOK t = true → first t = (tokens t).head?
-  | .mk _ _ hs, h => by simp only [first, tokens]; exact firstH_eq_head hs (by simpa [listsOK] using h)
-theorem firstH_eq_head : ∀ (hs : Holders), listsOKH hs = true → firstH hs = (tokensH hs).head?
-  | .nil, _ => rfl
-  | .tok i rest, h => by
+theorem first_eq_head : ∀ (t : Tree), first t = (tokens t).head?
+  | .mk _ _ hs => by simp only [first, tokens]; exact firstH_eq_head hs
+theorem firstH_eq_head : ∀ (hs : Holders), firstH hs = (tokensH hs).head?
+  | .nil => rfl
+  | .tok i rest => by
     simp only [firstH, tokensH]
     by_cases hi : i = 0
-    · subst hi; simp only [ne_eq, not_true_eq_false, if_false]; exact firstH_eq_head rest (by simpa [listsOKH] using h)
+    · subst hi; simp only [ne_eq, not_true_eq_false, if_false]; exact firstH_eq_head rest
     · simp [hi]
-  | .null rest, h => by simp only [firstH, tokensH]; exact firstH_eq_head rest (by simpa [listsOKH] using h)
-  | .node t rest, h => by
-    simp only [listsOKH, Bool.and_eq_true] at h
-    simp only [firstH, tokensH, head?_append_of, first_eq_head t h.1, firstH_eq_head rest h.2]
-  | .list es rest, h => by
-    simp only [listsOKH, Bool.and_eq_true] at h
-    simp only [firstH, tokensH, head?_append_of, firstE_eq_head es h.1.1.1 h.1.2, firstH_eq_head rest h.2]
-theorem firstE_eq_head : ∀ (es : Elems), headOK es = true → listsOKE es = true → firstE es = (tokensE es).head?
-  | .nil, _, _ => rfl
-  | .cons t _ rest, hh, hl => by
-    simp only [listsOKE, Bool.and_eq_true] at hl
-    simp only [headOK, Bool.or_eq_true, Bool.not_eq_true', List.isEmpty_eq_false_iff, List.isEmpty_iff] at hh
-    simp only [firstE, tokensE, head?_append_of, first_eq_head t hl.1]
-    rcases hh with hh | hh
-    · cases ht : tokens t with
-      | nil => exact absurd ht hh
-      | cons a l => simp [orElse]
-    · simp [hh, orElse_none_right]
+  | .null rest => by simp only [firstH, tokensH]; exact firstH_eq_head rest
+  | .node t rest => by simp only [firstH, tokensH, head?_append_of, first_eq_head t, firstH_eq_head rest]
+  | .list es rest => by simp only [firstH, tokensH, head?_append_of, firstE_eq_head es, firstH_eq_head rest]
+theorem firstE_eq_head : ∀ (es : Elems), firstE es = (tokensE es).head?
+  | .nil => rfl
+  | .cons t _ rest => by simp only [firstE, tokensE, head?_append_of, first_eq_head t, firstE_eq_head rest]
 end
 
 mutual
-theorem last_eq_getLast : ∀ (t : Tree), listsOK t = true → last t = (tokens t).getLast?
-  | .mk _ _ hs, h => by simp only [last, tokens]; exact lastH_eq_getLast hs (by simpa [listsOK] using h)
-theorem lastH_eq_getLast : ∀ (hs : Holders), listsOKH hs = true → lastH hs = (tokensH hs).getLast?
-  | .nil, _ => rfl
-  | .tok i rest, h => by
-    have ih := lastH_eq_getLast rest (by simpa [listsOKH] using h)
+theorem last_eq_getLast : ∀ (t : Tree), last t = (tokens t).getLast?
+  | .mk _ _ hs => by simp only [last, tokens]; exact lastH_eq_getLast hs
+theorem lastH_eq_getLast : ∀ (hs : Holders), lastH hs = (tokensH hs).getLast?
+  | .nil => rfl
+  | .tok i rest => by
+    have ih := lastH_eq_getLast rest
     simp only [lastH, tokensH, ih]
     by_cases hi : i = 0
     · subst hi; simp [orElse_none_right]
     · simp only [ne_eq, hi, not_false_eq_true, if_true]
       have := getLast?_append_of [i] (tokensH rest)
       simpa using this.symm
-  | .null rest, h => by simp only [lastH, tokensH]; exact lastH_eq_getLast rest (by simpa [listsOKH] using h)
-  | .node t rest, h => by
-    simp only [listsOKH, Bool.and_eq_true] at h
-    simp only [lastH, tokensH, getLast?_append_of, last_eq_getLast t h.1, lastH_eq_getLast rest h.2]
-  | .list es rest, h => by
-    simp only [listsOKH, Bool.and_eq_true] at h
-    simp only [lastH, tokensH, getLast?_append_of, lastE_eq_getLast es h.1.1.2 h.1.2, lastH_eq_getLast rest h.2]
-theorem lastE_eq_getLast : ∀ (es : Elems), lastOK es = true → listsOKE es = true → lastE es = (tokensE es).getLast?
-  | .nil, _, _ => rfl
-  | .cons t _ .nil, _, hl => by
-    simp only [listsOKE, Bool.and_eq_true] at hl
-    simp [lastE, tokensE, last_eq_getLast t hl.1]
-  | .cons t d (.cons t2 d2 rest2), hh, hl => by
-    simp only [listsOKE, Bool.and_eq_true] at hl
-    simp only [lastOK, Bool.and_eq_true, Bool.or_eq_true, Bool.not_eq_true', List.isEmpty_eq_false_iff, List.isEmpty_iff] at hh
-    have ih := lastE_eq_getLast (.cons t2 d2 rest2) hh.1 (by simp only [listsOKE, Bool.and_eq_true]; exact hl.2)
-    have e : lastE (.cons t d (.cons t2 d2 rest2)) = lastE (.cons t2 d2 rest2) := rfl
-    have e2 : tokensE (.cons t d (.cons t2 d2 rest2)) = tokens t ++ tokensE (.cons t2 d2 rest2) := rfl
-    rw [e, ih, e2, getLast?_append_of]
-    have h2 := hh.2
-    generalize tokensE (.cons t2 d2 rest2) = X at *
-    rcases h2 with h2 | h2
-    · cases X with
-      | nil => exact absurd rfl h2
-      | cons a l => cases hg : (a :: l).getLast? with
-        | none => simp at hg
-        | some v => rfl
-    · rw [h2]; simp [orElse_none_right]
+  | .null rest => by simp only [lastH, tokensH]; exact lastH_eq_getLast rest
+  | .node t rest => by simp only [lastH, tokensH, getLast?_append_of, last_eq_getLast t, lastH_eq_getLast rest]
+  | .list es rest => by simp only [lastH, tokensH, getLast?_append_of, lastE_eq_getLast es, lastH_eq_getLast rest]
+theorem lastE_eq_getLast : ∀ (es : Elems), lastE es = (tokensE es).getLast?
+  | .nil => rfl
+  | .cons t _ rest => by simp only [lastE, tokensE, getLast?_append_of, last_eq_getLast t, lastE_eq_getLast rest]
 end
 
 /-- **A node that owns at least one token never reports an invalid extent.** -/
-theorem owns_token_valid_extent (t : Tree) (h : listsOK t = true) (ht : tokens t ≠ []) :
+theorem owns_token_valid_extent (t : Tree) (ht : tokens t ≠ []) :
     first t ≠ none ∧ last t ≠ none := by
-  rw [first_eq_head t h, last_eq_getLast t h]
+  rw [first_eq_head t, last_eq_getLast t]
   cases hl : tokens t with
   | nil => exact absurd hl ht
   | cons a l => simp
@@ -170,49 +136,15 @@ theorem le_getLast_of_pairwise : ∀ {l : List Nat} {b x : Nat}, l.Pairwise (· 
         exact Nat.le_of_lt (hp'.1 b hb)
       · exact ih hp'.2 hl hx
 
-mutual
-theorem listsOK_subtree : ∀ (t d : Tree), listsOK t = true → d ∈ subtrees t → listsOK d = true
-  | .mk id k hs, d, h, hd => by
-    simp only [subtrees, List.mem_cons] at hd
-    rcases hd with rfl | hd
-    · exact h
-    · exact listsOKH_subtree hs d (by simpa [listsOK] using h) hd
-theorem listsOKH_subtree : ∀ (hs : Holders) (d : Tree), listsOKH hs = true → d ∈ subtreesH hs → listsOK d = true
-  | .nil, d, _, hd => by simp [subtreesH] at hd
-  | .tok _ rest, d, h, hd => listsOKH_subtree rest d (by simpa [listsOKH] using h) (by simpa [subtreesH] using hd)
-  | .null rest, d, h, hd => listsOKH_subtree rest d (by simpa [listsOKH] using h) (by simpa [subtreesH] using hd)
-  | .node t rest, d, h, hd => by
-    simp only [listsOKH, Bool.and_eq_true] at h
-    simp only [subtreesH, List.mem_append] at hd
-    rcases hd with hd | hd
-    · exact listsOK_subtree t d h.1 hd
-    · exact listsOKH_subtree rest d h.2 hd
-  | .list es rest, d, h, hd => by
-    simp only [listsOKH, Bool.and_eq_true] at h
-    simp only [subtreesH, List.mem_append] at hd
-    rcases hd with hd | hd
-    · exact listsOKE_subtree es d h.1.2 hd
-    · exact listsOKH_subtree rest d h.2 hd
-theorem listsOKE_subtree : ∀ (es : Elems) (d : Tree), listsOKE es = true → d ∈ subtreesE es → listsOK d = true
-  | .nil, d, _, hd => by simp [subtreesE] at hd
-  | .cons t _ rest, d, h, hd => by
-    simp only [listsOKE, Bool.and_eq_true] at h
-    simp only [subtreesE, List.mem_append] at hd
-    rcases hd with hd | hd
-    · exact listsOK_subtree t d h.1 hd
-    · exact listsOKE_subtree rest d h.2 hd
-end
-
 /-- **The first and last token of a node enclose the first and last tokens of all its descendants**, at any
 depth. -/
-theorem extents_enclose_descendants (t d : Tree) (hd : d ∈ subtrees t) (hl : listsOK t = true) (ho : Ordered t)
+theorem extents_enclose_descendants (t d : Tree) (hd : d ∈ subtrees t) (ho : Ordered t)
     (a b a' b' : Nat) (h1 : first t = some a) (h2 : last t = some b) (h3 : first d = some a') (h4 : last d = some b') :
     a ≤ a' ∧ b' ≤ b := by
-  have hld := listsOK_subtree t d hl hd
-  rw [first_eq_head t hl] at h1
-  rw [last_eq_getLast t hl] at h2
-  rw [first_eq_head d hld] at h3
-  rw [last_eq_getLast d hld] at h4
+  rw [first_eq_head t] at h1
+  rw [last_eq_getLast t] at h2
+  rw [first_eq_head d] at h3
+  rw [last_eq_getLast d] at h4
   have hsub := tokens_sublist t d hd
   have ha' : a' ∈ tokens t := hsub.subset (List.mem_of_mem_head? h3)
   have hb' : b' ∈ tokens t := hsub.subset (List.mem_of_getLast? h4)
@@ -223,11 +155,11 @@ theorem ordered_subtree (t d : Tree) (hd : d ∈ subtrees t) (ho : Ordered t) : 
   List.Pairwise.sublist (tokens_sublist t d hd) ho
 
 /-- the reported extent of a node is the minimum and maximum of the tokens of its subtree -/
-theorem extent_is_min_max (t : Tree) (hl : listsOK t = true) (ho : Ordered t) (a b : Nat)
+theorem extent_is_min_max (t : Tree) (ho : Ordered t) (a b : Nat)
     (h1 : first t = some a) (h2 : last t = some b) : ∀ x ∈ tokens t, a ≤ x ∧ x ≤ b := by
   intro x hx
-  rw [first_eq_head t hl] at h1
-  rw [last_eq_getLast t hl] at h2
+  rw [first_eq_head t] at h1
+  rw [last_eq_getLast t] at h2
   exact ⟨head_le_of_pairwise ho h1 hx, le_getLast_of_pairwise ho h2 hx⟩
 
 /-! ## Traversal -/
@@ -262,7 +194,7 @@ theorem visited_exactly_once (t : Tree) (hnd : (nodes t).Nodup) (id : Nat) :
 def sample : Tree :=
   .mk 0 1 (.node (.mk 1 2 (.tok 0 (.tok 1 .nil))) (.tok 2 (.node (.mk 2 3 (.node (.mk 3 2 (.tok 3 .nil)) (.tok 4 (.null
     (.list (.cons (.mk 4 2 (.tok 5 .nil)) 6 (.cons (.mk 5 2 (.tok 7 .nil)) 0 .nil)) (.list .nil .nil)))))) .nil)))
-example : listsOK sample = true ∧ Ordered sample ∧ first sample = some 1 ∧ last sample = some 7 ∧
+example : Ordered sample ∧ first sample = some 1 ∧ last sample = some 7 ∧
     (accept sample).2 = [0, 1, 2, 3, 4, 5] := by decide
 
 end PsycheModel.Tree
